@@ -48,6 +48,11 @@ def introspect():
     t['dtypeCodes'] = [(k, v.value) for k, v in ReprCodeConverter.numpy_dtypes_to_repr_codes.items()]
     t['genericTypes'] = sorted((k.__name__, v.value) for k, v in ReprCodeConverter.generic_types.items())
     t['hcPattern'] = value_checkers.HC_STRING_PATTERN.pattern
+    # the order of the checks `write` runs before the first byte (Model/Checks.lean follows it): the calls made, in
+    # source order, by LogicalFile.check_objects and by the function DLISFile.write times
+    from dliswriter.file.file import DLISFile, LogicalFile
+    t['checkOrder'] = _calls_in_order(LogicalFile.check_objects)
+    t['writeSteps'] = _calls_in_order(DLISFile.write, inner='timed_func')
     from dliswriter.logical_record.core.attribute.subtypes import DTimeAttribute
     t['codeClasses'] = [sorted(c.value for c in ReprCodeConverter.float_codes), sorted(c.value for c in ReprCodeConverter.sint_codes),
                         sorted(c.value for c in ReprCodeConverter.uint_codes), [c.value for c in ReprCodeConverter.int_codes],
@@ -66,6 +71,25 @@ def introspect():
     t['enums'] = enum_tables()
     t['convs'] = conv_schema()
     return t
+
+
+def _calls_in_order(fn, inner=None):
+    """names of the functions / methods called in the body of `fn` (or of the function `inner` defined in it), in
+    source order"""
+    import ast
+    import inspect
+    import textwrap
+    tree = ast.parse(textwrap.dedent(inspect.getsource(fn)))
+    root = tree.body[0]
+    if inner is not None:
+        root = next(n for n in ast.walk(root) if isinstance(n, ast.FunctionDef) and n.name == inner)
+    calls = []
+    for n in ast.walk(root):
+        if isinstance(n, ast.Call):
+            f = n.func
+            name = f.attr if isinstance(f, ast.Attribute) else (f.id if isinstance(f, ast.Name) else '?')
+            calls.append((n.lineno, n.col_offset, name))
+    return [c[2] for c in sorted(calls)]
 
 
 def _probe(set_cls):
@@ -229,6 +253,8 @@ def render(t):
     L.append('def dtypeCodes : List (String × Nat) := ' + lean_list([f'("{n}", {v})' for n, v in t['dtypeCodes']]))
     L.append('def genericTypes : List (String × Nat) := ' + lean_list([f'("{n}", {v})' for n, v in t['genericTypes']]))
     L.append(f'def hcPattern : String := "{t["hcPattern"]}"')
+    L.append('def checkOrder : List String := ' + lean_list(['"' + x + '"' for x in t['checkOrder']]))
+    L.append('def writeSteps : List String := ' + lean_list(['"' + x + '"' for x in t['writeSteps']]))
     L.append('/-- ReprCodeConverter.float_codes / sint_codes / uint_codes (sorted), int_codes, numeric_codes (in order) -/')
     L.append('def codeClasses : List (List Nat) := ' + lean_list([lean_list([str(x) for x in c]) for c in t['codeClasses']]))
     L.append('def dtimeFormats : List String := ' + lean_list(['"' + f + '"' for f in t['dtimeFormats']]))
